@@ -338,7 +338,7 @@ fn profile() -> (SetupProfile, Profile) {
 
 fn part_random() -> HistPart<Mon, impl Fn(&Setup) -> Mon + Sync> {
     let (sp, p) = profile();
-    HistPart { name: "random-histories", sp, p, cases_quick: 40_000, cases_thorough: 2_000_000, mk: |s: &Setup| Mon::new(s.codec) }
+    HistPart { name: "random-histories", sp, p, cases_quick: 80_000, cases_thorough: 2_000_000, mk: |s: &Setup| Mon::new(s.codec) }
 }
 
 // ---------------------------------------------------------------------------------------
@@ -380,7 +380,7 @@ impl Part for AccPart {
         case(&sp, &p)
     }
     fn cases(&self, tier: Tier) -> u64 {
-        tier.pick(15_000, 500_000)
+        tier.pick(30_000, 500_000)
     }
     fn exec(&self, case: &Case, out: &mut CaseOut) -> Result<(), Fail> {
         let mut runner = Runner::new(&case.setup);
